@@ -188,6 +188,16 @@ func (p *Policer) processObject(ctx context.Context, addrWithAttrs objectcore.Ad
 	default:
 	}
 
+	if !c.needLocalCopy && c.localNodeInContainer && c.uncheckedCopies {
+		// copies on nodes under maintenance are not confirmed, so they must not
+		// be the reason to remove the local one
+		p.log.Info("some of the copies are stored on nodes under maintenance, holding the replica...",
+			zap.Stringer("object", addr),
+		)
+
+		return
+	}
+
 	if !c.needLocalCopy {
 		if !c.localNodeInContainer {
 			// Here we may encounter a special case where the node is not in the network
@@ -248,6 +258,10 @@ type processPlacementContext struct {
 
 	// caches nodes which has been already processed in previous iterations
 	checkedNodes *nodeCache
+
+	// whether some nodes were considered as holders only because they are
+	// under maintenance
+	uncheckedCopies bool
 }
 
 func (p *Policer) processNodes(ctx context.Context, plc *processPlacementContext, nodes []netmap.NodeInfo, shortage uint32) {
@@ -341,6 +355,10 @@ func (p *Policer) processNodes(ctx context.Context, plc *processPlacementContext
 				plc.checkedNodes.submitReplicaHolder(nodes[i])
 			}
 		}
+	}
+
+	if uncheckedCopies > 0 {
+		plc.uncheckedCopies = true
 	}
 
 	if shortage > 0 {
